@@ -58,7 +58,7 @@ def generate(rng, n, tier, stats):
         a = rand_array(rng, stats=stats, attrs=rng.random() < 0.3, maxlen=4 if tier == 'quick' else 5)
         nd = len(a['dims'])
         by = 'label' if rng.random() < 0.8 else 'position'
-        spelling = rng.choice(['getitem', 'getitem', 'take', 'take', 'loc', 'sel', 'ix', 'iloc', 'isel', 'take_pos', 'take_lab', 'nloc', 'tol'])
+        spelling = rng.choice(['getitem', 'getitem', 'take', 'take', 'loc', 'sel', 'ix', 'iloc', 'isel', 'take_pos', 'take_lab', 'nloc', 'tol', 'tol', 'tol'])
         tol = None
         if spelling == 'tol':
             spelling = 'take'; tol = rng.choice([0.25, 0.5, 1.0, 'inf'])
@@ -71,7 +71,9 @@ def generate(rng, n, tier, stats):
             if (tol is not None or spelling == 'nloc') and mode == 'label':
                 # tolerance: numeric targets near / far from labels (scalars and lists)
                 if kind == 'O' or not labs: return rand_index(rng, labs, kind, mode, stats, allow_slice=False)
-                t = rng.choice(labs) + rng.choice([0, 0.25, -0.25, 0.75, 3.5])
+                # on either side of a label, inside and outside the tolerance; also beyond both ends of the axis
+                t = rng.choice(labs + [min(labs), max(labs)]) + rng.choice([0, 0.25, -0.25, 0.75, -0.75, 1.5, -1.5, 3.5, -3.5])
+                stats['tol_target_side']['above nearest' if min(abs(t - l) for l in labs) and t > min(labs, key=lambda l: abs(t - l)) else 'below or on'] += 1
                 stats['index_kind']['label:tol'] += 1
                 return {'s': t} if rng.random() < 0.6 else {'l': [t, rng.choice(labs)]}
             return rand_index(rng, labs, kind, mode, stats)
